@@ -23,11 +23,25 @@ def main():
         args = mod.decode_args(args)
     ns.update(args)
     repeat = int(rq.get('repeat', 1))
+    nbefore = 0
+    for b in rq.get('before', []):
+        # earlier calls of the same body on other inputs of the same condition (state left behind by them is what a
+        # counterexample found in a long-lived process may depend on); their own outcome is not judged here
+        nsb = dict(ns)
+        nsb.update(mod.decode_args(b) if hasattr(mod, 'decode_args') else b)
+        try:
+            eval(rq['call'], nsb)
+        except BaseException:  # noqa
+            pass
+        nbefore += 1
     try:
         for k in range(repeat):
             try:
                 reached = eval(rq['call'], ns)
             except Violation as e:
+                if k == 0 and nbefore:
+                    raise Violation('only after %d earlier call(s) on other inputs in the same process (state kept between '
+                                    'calls): %s' % (nbefore, e))
                 if k == 0:
                     raise
                 raise Violation('only after %d earlier call(s) in the same process (state kept between calls): %s' % (k, e))
